@@ -13,7 +13,7 @@ type step func(g *Gen) (Op, string, bool)
 
 // Scenarios lists the available scripts (index 0 = none).
 var Scenarios = []string{"", "connect", "silence", "restart_same_creds", "restart_disconnected", "fail_restart",
-	"late_response", "two_transports", "multi_pair", "prflx_supersede", "zero_failed_timeout", "foreign_indication", "neighbour_port", "stale_deferred"}
+	"late_response", "two_transports", "multi_pair", "prflx_supersede", "zero_failed_timeout", "foreign_indication", "neighbour_port", "stale_deferred", "supersede_renom"}
 
 func (g *Gen) sAL(i int) step {
 	return func(g *Gen) (Op, string, bool) {
@@ -145,6 +145,23 @@ func sPeerReqOldSocket(idx int, src Addr) step {
 	}
 }
 
+// a renomination (next value) from an address that is not a known remote candidate
+func sPeerRenomFrom(li int, src Addr) step {
+	return func(g *Gen) (Op, string, bool) {
+		if li >= len(g.locals) || g.Ctl {
+			return Op{}, "", false
+		}
+		g.nextPeerTx++
+		m := Msg{Class: 0, Method: 1, Tx: g.nextPeerTx, HasUser: true, UserA: g.LU, UserB: g.RU, HasKey: true, Key: g.LP,
+			HasCtl: true, Ctl: true, TB: g.R.Uint64(), HasPrio: true, Prio: uint32(1 + g.R.Intn(1<<20)), Use: true}
+		if g.S.cfg.Renomination {
+			g.peerNom++
+			m.HasNom, m.Nom = true, g.peerNom
+		}
+		return Op{Kind: "IS", LH: g.locals[li].H, Src: src, Msg: m}, "req_unknown_use_nom", true
+	}
+}
+
 func sData(li, ri int) step {
 	return func(g *Gen) (Op, string, bool) {
 		if li >= len(g.locals) || ri >= len(g.remotes) {
@@ -268,6 +285,10 @@ func (g *Gen) Plan(name string, ctl bool) {
 		// when the first pair becomes valid its stale value must not move the selection
 		g.script = []step{g.sAL(0), g.sAR(0), g.sAR(1), sStart(ctl), sTick, sTick, sAnswerTo(0), sPeerReq(0, 0, true, 1),
 			sPeerReq(0, 1, true, 1), sPeerReq(0, 0, true, 1), sTick, sAnswerTo(1), sAnswerTo(1), sTick, sAnswerTo(1)}
+	case "supersede_renom":
+		// a renomination deferred on a peer-reflexive pair survives the arrival of the signalled candidate
+		g.script = []step{g.sAL(0), g.sAR(0), sStart(false), sTick, sAnswerTo(0), sPeerReq(0, 0, true, 1),
+			sPeerRenomFrom(0, unknownSrc[1]), g.sAR(12), sAnswer(true), sAnswer(true), sTick, sAnswer(true)}
 	case "prflx_supersede":
 		g.script = []step{g.sAL(0), sStart(ctl), sPeerReqFrom(0, unknownSrc[1], true), g.sAR(12), sAnswer(true), sWriteToPair, sTick, sAnswer(true), sWriteToPair}
 	case "neighbour_port":
